@@ -700,6 +700,13 @@ def run_kind(ctx, rng, kind, tally, dis, feats, samples, notes, model=True):
         cases += len(exprs)
     if model:
         for (p, d, meta, exprs, kind, defs) in jobs:
+            # the list-based model looks every sample up by walking the mesh: its vm_compute cost grows with nodes x samples; meshes
+            # above the cap are checked by the oracles only (count in the coverage notes)
+            cap = 700 if ctx.quick() else 2500
+            if len(d["nodes"]) > cap:
+                notes.append(dict(what="mesh of %d nodes above the model-evaluation cap %d: contours of this problem were checked by the oracles only"
+                                       % (len(d["nodes"]), cap), features=p.get("features")))
+                continue
             ms = vlib.coq_eval(HEADER + "\n" + mesh_defs(d, kind) + defs, exprs, shard=100, timeout=1800, name="xl" + KCH[kind])
             for (cf, ops, res, nn), m in zip(meta, ms):
                 bad = compare(tally, kind, res, m, nn, "%s %s contour" % (kind, cf))
